@@ -914,6 +914,14 @@ Outcome(c) ==
 
 RunProgram(body, fuel, isEval) == Outcome(RunBody(State0(fuel), body, GlobalCx, isEval))
 
+(* several programs one after the other on the same runtime (C17, C20): the outcomes *)
+RECURSIVE RunSeqFrom(_, _, _, _)
+RunSeqFrom(st, progs, i, fuel) ==
+    IF i > Len(progs) THEN <<>>
+    ELSE LET c == RunBody([st EXCEPT !.log = <<>>, !.fuel = fuel], progs[i], GlobalCx, FALSE)
+         IN  <<Outcome(c)>> \o RunSeqFrom(c.st, progs, i + 1, fuel)
+RunSeq(progs, fuel) == RunSeqFrom(State0(fuel), progs, 1, fuel)
+
 (* C18: run P with an interrupt delivered at polling point k (0 = never), then run the   *)
 (* follow-up program Q on the state the first run left behind.                            *)
 RunThen(body, k, follow, fuel) ==
